@@ -113,13 +113,15 @@ func c18Verify(dir string, sc *c18Scenario) (string, string) {
 	return "", ""
 }
 
+var c18Procs = "2"
+
 func c18RunFault(dir string, sc *c18Scenario, wrapper []string) (int, string) {
 	c18Reset(dir, sc.Files)
 	args := append(append([]string(nil), wrapper...), knutPlain)
 	args = append(args, sc.Args...)
 	cmd := exec.Command(args[0], args[1:]...)
 	cmd.Dir = dir
-	cmd.Env = append(os.Environ(), "GOMAXPROCS=2")
+	cmd.Env = append(os.Environ(), "GOMAXPROCS="+c18Procs)
 	var se bytes.Buffer
 	cmd.Stderr = &se
 	cmd.Stdout = &se
@@ -462,7 +464,11 @@ func c18Run(e *core.Env) {
 			if key != "" {
 				cs := c18Case{sc.Name, fault}
 				e.Violation(key+":"+strings.SplitN(fault, "=", 2)[0], detail+"\nscenario "+sc.Name+", fault "+fault+", exit "+fmt.Sprint(code)+"\nstderr: "+clip(stderr, 400), cs, func() bool {
+					if strings.HasSuffix(fault, ":p1") {
+						c18Procs = "1"
+					}
 					c18RunFault(dir, &sc, wrapper)
+					c18Procs = "2"
 					k, _ := c18Verify(dir, &sc)
 					return k == key
 				})
@@ -505,13 +511,23 @@ func c18Run(e *core.Env) {
 			total += n
 		}
 		sort.Strings(calls)
-		for _, c := range calls {
-			for n := 1; n <= counts[c]+1; n++ {
-				for _, en := range errnos {
-					try(fmt.Sprintf("error=%s:%s:%d", c, en, n), []string{"strace", "-f", "-o", "/dev/null", "-e", "trace=" + c, "-e", fmt.Sprintf("inject=%s:error=%s:when=%d", c, en, n)}, true)
+		procsList := []string{"2"}
+		if len(sc.Targets) > 1 {
+			// several files: also with a single worker, where one goroutine handles the
+			// files one after the other (state carried from a failed file to the next)
+			procsList = []string{"2", "1"}
+		}
+		for _, procs := range procsList {
+			c18Procs = procs
+			for _, c := range calls {
+				for n := 1; n <= counts[c]+1; n++ {
+					for _, en := range errnos {
+						try(fmt.Sprintf("error=%s:%s:%d:p%s", c, en, n, procs), []string{"strace", "-f", "-o", "/dev/null", "-e", "trace=" + c, "-e", fmt.Sprintf("inject=%s:error=%s:when=%d", c, en, n)}, true)
+					}
 				}
 			}
 		}
+		c18Procs = "2"
 		// 3. process death at every file-system syscall boundary
 		for n := 1; n <= total+2; n++ {
 			try(fmt.Sprintf("kill=%d", n), []string{"strace", "-f", "-o", "/dev/null", "-e", "trace=" + c18Trace, "-e", fmt.Sprintf("inject=%s:signal=KILL:when=%d", c18Trace, n)}, true)
@@ -581,6 +597,9 @@ func c18Replay(e *core.Env, data json.RawMessage) (bool, string) {
 			wrapper = []string{"prlimit", "--fsize=" + parts[1]}
 		case "error":
 			f := strings.Split(parts[1], ":")
+			if len(f) > 3 {
+				c18Procs = strings.TrimPrefix(f[3], "p")
+			}
 			wrapper = []string{"strace", "-f", "-o", "/dev/null", "-e", "trace=" + f[0], "-e", fmt.Sprintf("inject=%s:error=%s:when=%s", f[0], f[1], f[2])}
 		case "kill":
 			wrapper = []string{"strace", "-f", "-o", "/dev/null", "-e", "trace=" + c18Trace, "-e", fmt.Sprintf("inject=%s:signal=KILL:when=%s", c18Trace, parts[1])}
